@@ -45,8 +45,39 @@ def s_dcm(rng):
 
 
 def s_euler(rng):
-    # outside the +-1e-3 gimbal band, with a margin that keeps conditioning O(1)
-    return np.array([rng.uniform(-3.1, 3.1), rng.uniform(-1.45, 1.45), rng.uniform(-3.1, 3.1)])
+    """valid Euler triples (outside the +-1e-3 rad gimbal band): 60 % generic pitch, 40 % just outside
+    the band at either pole (delta in [1.05e-3, 3e-2], log-uniform)"""
+    if rng.uniform() < 0.6:
+        th = rng.uniform(-1.45, 1.45)
+    else:
+        d = 10 ** rng.uniform(np.log10(1.05e-3), np.log10(3e-2))
+        th = rng.choice([-1.0, 1.0]) * (np.pi / 2 - d)
+    return np.array([rng.uniform(-3.1, 3.1), th, rng.uniform(-3.1, 3.1)])
+
+
+def euler_R(e):
+    psi, th, phi = e
+    cz, sz, cy, sy, cx, sx = np.cos(psi), np.sin(psi), np.cos(th), np.sin(th), np.cos(phi), np.sin(phi)
+    Rz = np.array([[cz, -sz, 0], [sz, cz, 0], [0, 0, 1]])
+    Ry = np.array([[cy, 0, sy], [0, 1, 0], [-sy, 0, cy]])
+    Rx = np.array([[1, 0, 0], [0, cx, -sx], [0, sx, cx]])
+    return Rz @ Ry @ Rx
+
+
+def euler_of_R(R):
+    return np.array([np.arctan2(R[1, 0], R[0, 0]), np.arcsin(np.clip(-R[2, 0], -1, 1)), np.arctan2(R[2, 1], R[2, 2])])
+
+
+def euler_band_pair(rng):
+    """(X, Y, delta): valid X, Y (outside the band) whose product lands INSIDE the band at a pole
+    (|pitch -+ pi/2| = delta < 1e-3).  Inside the band only the documented 1e-3 rad tolerance applies."""
+    d = 10 ** rng.uniform(-6, np.log10(9e-4))
+    Z = np.array([rng.uniform(-3, 3), rng.choice([-1.0, 1.0]) * (np.pi / 2 - d), rng.uniform(-3, 3)])
+    while True:
+        X = np.array([rng.uniform(-3.1, 3.1), rng.uniform(-1.3, 1.3), rng.uniform(-3.1, 3.1)])
+        Y = euler_of_R(euler_R(X).T @ euler_R(Z))
+        if abs(abs(Y[1]) - np.pi / 2) > 0.05:
+            return X, Y, d
 
 
 def s_vec(n, scale=2.0):
